@@ -284,6 +284,33 @@ fn op(line: &str) -> String {
                 Err(_) => "panic ## fail panic".into(),
             }
         }
+        ["collect", ps] => {
+            // pairs `k=v,k=v,…` (hex fields) in iteration order, collected with `FromIterator`
+            let mut pairs: Vec<(String, String)> = vec![];
+            for kv in ps.split(',') {
+                let Some((k, v)) = kv.split_once('=') else { return "bad-op".into() };
+                let (Some(k), Some(v)) = (unhex_str(k), unhex_str(v)) else { return "bad-op".into() };
+                pairs.push((k, v));
+            }
+            // independent expectation: keys in first-appearance order, all once-decoded values in order
+            let mut spec: Vec<(String, Vec<String>)> = vec![];
+            for (k, v) in &pairs {
+                let d = once_seg(v);
+                match spec.iter_mut().find(|g| &g.0 == k) {
+                    Some(g) => g.1.push(d),
+                    None => spec.push((k.clone(), vec![d])),
+                }
+            }
+            match catch_unwind(AssertUnwindSafe(|| pairs.clone().into_iter().collect::<ParamsMap>())) {
+                Ok(m) => {
+                    let got = show_map(&m);
+                    let last_ok = spec.iter().all(|g| m.get(&g.0).as_ref() == g.1.last());
+                    let v = if got == show_groups(&spec) && last_ok { "ok" } else { "fail collect" };
+                    format!("ok {got} ## {v}")
+                }
+                Err(_) => "panic ## fail panic".into(),
+            }
+        }
         ["roundtrip", ms] => {
             let Some(groups) = parse_map(ms) else { return "bad-op".into() };
             let r = catch_unwind(|| {
@@ -364,7 +391,7 @@ fn gen(seed: u64, n: usize, path: &str) -> std::io::Result<()> {
     let mut f = std::io::BufWriter::new(std::fs::File::create(path)?);
     for i in 0..n {
         writeln!(f, "case {i}")?;
-        match r.below(13) {
+        match r.below(15) {
             0 | 1 => writeln!(f, "escape {}", hex(gen_plain(&mut r, 8).as_bytes()))?,
             2 => writeln!(f, "unescape {}", hex(gen_str(&mut r, 5, &[]).as_bytes()))?,
             3 | 4 | 5 => {
@@ -412,6 +439,18 @@ fn gen(seed: u64, n: usize, path: &str) -> std::io::Result<()> {
                 let (a, b) = (seg(&mut r), seg(&mut r));
                 let kind = if r.chance(2, 3) { "nested" } else { "flat" };
                 writeln!(f, "routeparam {kind} {} {}", hex(a.as_bytes()), hex(b.as_bytes()))?
+            }
+            13 | 14 => {
+                // FromIterator over pairs with repeated keys, adjacent and not
+                let keys = ["id", "sort", "a%41", "é", ""];
+                let n = r.range(1, 5);
+                let mut ps: Vec<String> = vec![];
+                for _ in 0..n {
+                    let k = *r.pick(&keys);
+                    let v = gen_str(&mut r, 3, &[]);
+                    ps.push(format!("{}={}", hex(k.as_bytes()), hex(v.as_bytes())));
+                }
+                writeln!(f, "collect {}", ps.join(","))?
             }
             12 => {
                 let pairs = r.range(1, 3);
